@@ -16,14 +16,15 @@ fn write_field(
         // Adds all the required imports needed based off whether its optional ,aliased, or needs a byte translation
         self.add_common_imports(is_optional, custom_translations.is_some(), is_aliased);
 
-        let mut field_type = python_type;
+        let mut field_type = python_type.clone();
 
         if not_optional_but_default {
             field_type = format!("Optional[{field_type}]");
         }
         if let Some(custom_translation) = custom_translations {
-            self.types_for_custom_json_translation
-                .insert(field_type.clone());
+            // Register the type the translation functions are defined for, not the `Optional[..]`
+            // wrapper around it: the functions are looked up by that name when they are written.
+            self.types_for_custom_json_translation.insert(python_type);
             field_type = format!(
                 "Annotated[{field_type}, BeforeValidator({}), PlainSerializer({})]",
                 custom_translation.deserialization_name, custom_translation.serialization_name
